@@ -36,15 +36,17 @@ uint8_t Memory::read8(uint32_t address)
   if (first_read_done < CONCRETIZE_READS) fresh = (uint8_t)symx_concretize(fresh);
 #endif
   first_read_done++;
-  symx_assert(init_n < NINIT, "harness: initial-memory cell budget");
-  if (init_n < NINIT) { init_addr[init_n] = address; init_val[init_n] = fresh; init_n++; }
+  // a step that reads more distinct initial memory cells than the model holds (block-transfer instructions with a
+  // long repeat count) is outside the bound: the path ends here and is counted under the cover tag
+  if (init_n >= NINIT) { symx_cover("outside-bound:initial-cell-budget"); symx_assume(0); }
+  init_addr[init_n] = address; init_val[init_n] = fresh; init_n++;
   return fresh;
 }
 void Memory::write8(uint32_t address, uint8_t data)
 {
   Log &l = logs[cur];
-  symx_assert(l.n < NLOG, "harness: write log budget");
-  if (l.n < NLOG) { l.addr[l.n] = address; l.val[l.n] = data; l.n++; }
+  if (l.n >= NLOG) { symx_cover("outside-bound:write-log-budget"); symx_assume(0); }
+  l.addr[l.n] = address; l.val[l.n] = data; l.n++;
 }
 void Memory::write(uint32_t address, uint8_t data, int line) { write8(address, data); }
 int Memory::read_debug(uint32_t address) { return 0; }
